@@ -93,24 +93,60 @@ def final_return(g, path):
     return None
 
 
-def reaches_modulus_compare(prog, fn, call, depth=0, seen=None):
-    """does this call (transitively, depth<=3) compare something with the base-field modulus?"""
-    seen = seen or set()
+def raw_coordinate_compare(prog, fn, call, slots=2):
+    """Does this reject-test call hand the encoding's bytes to a function that compares every raw coordinate with q?
+    Returns (True, '') / (False, reason) / None when the call is not of that kind.  The comparison only establishes
+    canonicality if it sees the *raw* bytes: bits that are masked off before the comparison (the flag positions of the
+    coordinate slots after the first) must be tested separately, otherwise 2^3 encodings per slot decode to one point."""
+    if not any(pr.norm_obj(pr.canon(a)).startswith('this.data') for a in call.get('args', [])):
+        return None
     callee = prog.callee(call, fn)
-    if callee is None or 'body' not in callee or callee['key'] in seen or depth > 3:
-        return False
-    seen.add(callee['key'])
+    if callee is None or 'body' not in callee:
+        return None
+    cmps = []
     for c in pr.calls(callee['body']):
-        if c.get('name') == 'compare':
-            for a in c.get('args', []):
-                for x in walk(a):
-                    if x.get('k') == 'ref' and x.get('rk') == 'global':
-                        g = prog.globals.get(x['g'])
-                        if g is not None and 'value' in g and consts.as_int(consts.decode(g['value'])) == bls.Q:
-                            return True
-        if reaches_modulus_compare(prog, callee, c, depth + 1, seen):
-            return True
-    return False
+        if c.get('name') == 'compare' and len(c.get('args', [])) == 2:
+            for x in walk(c['args'][1]):
+                if x.get('k') == 'ref' and x.get('rk') == 'global':
+                    g = prog.globals.get(x['g'])
+                    if g is not None and 'value' in g and consts.as_int(consts.decode(g['value'])) == bls.Q:
+                        cmps.append(c)
+    if not cmps:
+        return None
+    # the compared object is filled by a plain byte copy (BigInt::read_big_endian), not by the reducing Fq reader
+    obj = pr.canon(cmps[0]['args'][0])
+    fills = [c for c in pr.calls(callee['body']) if c.get('name') == 'read_big_endian' and pr.canon(c['this']) == obj]
+    if not fills or 'BigInt<' not in (prog.callee(fills[0], callee) or {}).get('qn', ''):
+        return (False, 'the value compared with q is not the raw big-endian coordinate')
+    g = CFG(callee)
+    rej = False
+    for nd in g.cond_nodes():
+        if any(x is cmps[0] for x in walk(nd.ast)):
+            for (y, lab) in nd.succ:
+                if is_return_false(g.nodes[y]):
+                    rej = True
+    if not rej:
+        return (False, 'a coordinate >= q does not make the helper return false')
+    masks = [x for x in walk(callee['body']) if x.get('k') == 'assign' and x.get('op') == '&=' and 'cv' in strip(x['rhs']) and
+             (int(strip(x['rhs'])['cv']) & 0xFF) != 0xFF and pr.canon(x['lhs']).startswith(obj)]
+    if masks:
+        loops = [lp for (h, lp) in g.loops]
+        in_loop = any(any(y is m for y in walk(lp['body'])) for lp in loops for m in masks)
+        # a separate test of the masked-off bits of the later slots would make this sound again
+        straytest = any(nd for nd in g.cond_nodes() if any(y.get('k') == 'bin' and y.get('op') == '&' and 'cv' in strip(y['rhs']) and
+                                                           (int(strip(y['rhs'])['cv']) & 0xE0) == 0xE0 for y in walk(nd.ast)))
+        if in_loop and not straytest and slots > 1:
+            return (False, 'the helper clears the top three bits of *every* coordinate slot before comparing (%s): stray bits in the '
+                           'flag positions of the slots after the first are never rejected' % loc_str(masks[0]))
+    return (True, '')
+
+
+def data_size(prog, f):
+    rec = prog.records.get(f.get('parent'))
+    for fld in (rec or {}).get('fields', []):
+        if fld['name'] == 'data':
+            return fld['t'].get('n')
+    return None
 
 
 def check_decode(ctx, cfg, prog, f):
@@ -216,14 +252,20 @@ def check_decode(ctx, cfg, prog, f):
                     if int(ln) == sz:
                         canon_ok = True
                         how = 're-encode and compare all %s bytes' % ln
+        why_not = ''
         if not canon_ok:
             for (n, l) in rts:
                 for c in pr.calls(n.ast):
-                    if reaches_modulus_compare(prog, f, c):
+                    r = raw_coordinate_compare(prog, f, c, slots=(data_size(prog, f) or 96) // 48)
+                    if r is None:
+                        continue
+                    if r[0]:
                         canon_ok = True
-                        how = 'raw coordinate compared with q'
-        ob('canonical', canon_ok, 'has no canonicality test: a coordinate >= q (e.g. x + q < 2^381) or stray flag bits in y would be '
-           'accepted and decode to the same point')
+                        how = 'raw coordinates compared with q'
+                    else:
+                        why_not = ' (' + r[1] + ')'
+        ob('canonical', canon_ok, 'has no complete canonicality test: a coordinate >= q (e.g. x + q < 2^381) or stray flag bits in a '
+           'later coordinate would be accepted and decode to the same point' + why_not)
         # curve membership
         if compressed:
             gp = [c for (n, l) in rts for c in has_call(n.ast, 'get_point_from_x')]
